@@ -23,7 +23,8 @@ MORE = [('GenSplit.v', 'slisting', 'stemplate',
         # calls: a comment `function NAME` pins the body of that function instead of a statement of main
         ('GenCall.v', 'flisting', None, CALL_DECL),
         ('GenTruth.v', 'tlisting', None, 'unsigned char a, b, c; unsigned short s, t, u;'),
-        ('GenPtr.v', 'plisting', None, 'unsigned char a, b, c; unsigned char arr[8]; unsigned char *p, *q;')]
+        ('GenPtr.v', 'plisting', None, 'unsigned char a, b, c; unsigned char arr[8]; unsigned char *p, *q;'),
+        ('GenElem.v', 'elisting', None, 'short sarr[4]; unsigned char *pa[2]; unsigned char a;')]
 
 
 def more_listings():
